@@ -14,7 +14,8 @@ MIN_THEOREMS = 28
 US = D.US
 DAY = 86400 * US
 YMAX = Z.YMAX_QUICK
-RULE = ("pd ops: direct calls of the active precise_diff (py worker: pendulum._helpers, rs worker: pendulum._pendulum, and the "
+RULE = ("(every other aware op is preceded by intervals between the same two instants rendered in four other zones: history) "
+        "pd ops: direct calls of the active precise_diff (py worker: pendulum._helpers, rs worker: pendulum._pendulum, and the "
         "rs worker also calls the Python helper on the same arguments) on native date/datetime pairs: grid of (start month/day) x "
         "(end month/day) x 6 leap patterns of the year pair x 4 time-of-day borrow shapes (quick: days 1,2,15,27..31 of every "
         "month + random grid cells; thorough: every day of every month), both argument orders; modes native/naive/nameless "
@@ -354,6 +355,17 @@ def impl(op, backend):
         return out
     _, za, wa, fa, zb, wb, fb, ab = op
     a, b = _mk_val(za, wa, fa), _mk_val(zb, wb, fb)
+    # history: the components must depend on the two values only, not on intervals built before in this process. For aware
+    # DateTimes, every other op first builds the interval between the SAME two instants rendered in other zones (a different wall
+    # clock decomposition), touching its components.
+    import zlib
+    if zlib.crc32(repr(op).encode()) & 1 and isinstance(a, p.DateTime) and isinstance(b, p.DateTime) and a.tzinfo is not None and b.tzinfo is not None:
+        for tzname in ("Asia/Tokyo", "UTC", "America/Los_Angeles", "Pacific/Kiritimati"):
+            try:
+                w0 = p.Interval(a.in_timezone(tzname), b.in_timezone(tzname), absolute=bool(ab))
+                w0.years, w0.months, w0.remaining_days, w0.hours
+            except (OverflowError, ValueError):
+                pass
     if ab:
         iv = p.Interval(a, b, absolute=True)
         rv = p.Interval(b, a, absolute=True)
